@@ -12,6 +12,11 @@ use std::io::BufReader;
 
 use std::path::PathBuf;
 use std::sync::mpsc::{SendError, Sender};
+#[cfg(feature = "Verif_Hooks")]
+use crate::verif_sync::{LockResult, Mutex, MutexGuard};
+#[cfg(feature = "Verif_Hooks")]
+use std::sync::Arc;
+#[cfg(not(feature = "Verif_Hooks"))]
 use std::sync::{Arc, LockResult, Mutex, MutexGuard};
 
 #[cfg(feature = "Debug")]
@@ -68,6 +73,7 @@ impl ExecutorStateArc {
         }
     }
 
+    #[cfg_attr(feature = "Verif_Hooks", track_caller)]
     pub fn lock(&self) -> LockResult<MutexGuard<'_, ExecutorState>> {
         self.arc.lock()
     }
